@@ -8,6 +8,25 @@ import PMV.Props.C16
 namespace PMV.Dispatch
 open PMV PMV.Algebra
 
+theorem normAx_neg1 (n : Nat) (h : n ≥ 1) : normAx n (-1) = some (n - 1) := by
+  unfold normAx
+  simp only []
+  have h1 : ¬ ((-1 : Int) ≥ 0) := by omega
+  rw [if_neg h1]
+  have h2 : ¬ ((-1 + (n : Int)) < 0 ∨ (-1 + (n : Int)) ≥ n) := by omega
+  rw [if_neg h2]
+  congr 1
+  omega
+
+theorem normAx_zero (n : Nat) (h : n ≥ 1) : normAx n 0 = some 0 := by
+  unfold normAx
+  simp only []
+  have h1 : ((0 : Int) ≥ 0) := by omega
+  rw [if_pos h1]
+  have h2 : ¬ ((0 : Int) < 0 ∨ (0 : Int) ≥ n) := by omega
+  rw [if_neg h2]
+  rfl
+
 /-- what `dotItem x y (-1) 0` returns, in terms of the rolled padded items -/
 theorem dotItem_rolled (a b : Desc) (x y : Item Int) (hxn : x.numer = a.numer) (hxd : x.denom = a.denom)
     (hyn : y.numer = b.numer) (hyd : y.denom = b.denom) (h1 : a.numer ≠ []) (h2 : b.numer ≠ []) (r : Item Int)
@@ -16,9 +35,9 @@ theorem dotItem_rolled (a b : Desc) (x y : Item Int) (hxn : x.numer = a.numer) (
   have l1 : a.numer.length ≥ 1 := List.length_pos_iff.mpr h1
   have l2 : b.numer.length ≥ 1 := List.length_pos_iff.mpr h2
   have n1 : normAx x.numer.length (-1) = some (a.numer.length - 1) := by
-    rw [hxn]; simp [normAx]; omega
+    rw [hxn]; exact normAx_neg1 _ l1
   have n2 : normAx y.numer.length 0 = some 0 := by
-    rw [hyn]; simp [normAx]; omega
+    rw [hyn]; exact normAx_zero _ l2
   unfold dotItem at h
   split at h
   · cases h
@@ -61,7 +80,7 @@ theorem value_ref_matrix (a b : Desc) (A B : Arr Int) (h1 : a.numer ≠ []) (h2 
           einsumRef (itemAt A a.numer a.denom ia) (itemAt B b.numer b.denom ib) (a.numer.length - 1) 0 o1 o2 d1 d2 := by
     intro ia ib
     obtain ⟨r, hr, _, _, hv⟩ := dot_eq_einsum (itemAt A a.numer a.denom ia) (itemAt B b.numer b.denom ib) (-1) 0
-      (a.numer.length - 1) 0 (by simp [itemAt, normAx]; omega) (by simp [itemAt, normAx]; omega)
+      (a.numer.length - 1) 0 (normAx_neg1 _ l1) (normAx_zero _ l2)
       (by simpa [itemAt] using hd) (by simpa [itemAt] using hn)
     exact ⟨r, hr, fun o1 o2 d1 d2 v1 v2 v3 v4 => hv o1 o2 d1 d2 (by simpa [itemAt] using v1)
       (by simpa [itemAt] using v2) (by simpa [itemAt] using v3) (by simpa [itemAt] using v4)⟩
@@ -71,7 +90,8 @@ theorem value_ref_matrix (a b : Desc) (A B : Arr Int) (h1 : a.numer ≠ []) (h2 
   obtain ⟨r0, hr0, _⟩ := hein [] []
   obtain ⟨p0, hp0, _⟩ := dotItem_rolled a b _ _ rfl rfl rfl rfl h1 h2 r0 hr0
   have hT : ∃ T, bshape (rolledShape1 a b) (rolledShape2 a b) = some T := by
-    simp only [mulB, rolled1_shape a b _ rfl rfl, rolled2_shape a b _ rfl rfl] at hp0
+    simp only [mulB, rolled1_shape a b (itemAt A a.numer a.denom []) rfl rfl,
+      rolled2_shape a b (itemAt B b.numer b.denom []) rfl rfl] at hp0
     cases hTT : bshape (rolledShape1 a b) (rolledShape2 a b) with
     | none => rw [hTT] at hp0; simp at hp0
     | some T => exact ⟨T, rfl⟩
